@@ -130,16 +130,26 @@ def run(ctx):
     # ---------------------------------------------------------------- C09-c
     um = ctx.anchor(F.method, "LeaderState", "update_match_index")
     if um:
-        paths = table_of(ctx, "C09-c", um, "update_match_index")
-        if paths:
-            for n, p in enumerate(paths):
-                ins = [x for x in p.effects if strip_generics(x[0]).endswith("::insert")]
-                adv = any(out is True and e[0] == "bin" and e[1] == "Lt" and par(3)(e[3]) and mentions(e[2], lambda x: x[0] == "field" and x[2] == "match_index") for (e, out) in p.conds)
-                if ins:
-                    okv = par(3)(ins[0][1][2]) and mentions(ins[0][1][0], lambda x: x[0] == "field" and x[2] == "match_index")
-                    ctx.check("C09-c", "%s#insert[%d]" % (fkey(um), n), adv and okv, "match_index written only when new > current",
-                              "match_index is overwritten without `new > current` (a stale, out-of-order ACK could move it backwards)", "%s:%s" % (um.file, um.line))
-            ctx.floor("C09-c", len([p for p in paths if any(strip_generics(x[0]).endswith("::insert") for x in p.effects)]), 1, "match_index insert path")
+        mb = F.main_body(um)
+        conds = edge_conditions(mb)
+        # write sites: map.insert(node, v) on match_index, or `*slot = v` through a slot obtained from entry()/get_mut() of match_index
+        sites = []
+        for (bi, t) in field_receiver_calls(F, mb, "LeaderState", "match_index", r"(HashMap|BTreeMap)::insert$"):
+            sites.append((bi, t["args"][2], "insert"))
+        for bi, blk in enumerate(mb.blocks):
+            for st in blk["st"]:
+                if "lhs" in st and "*" in st["lhs"].get("pj", []) and not is_noise_exp(st.get("exp")):
+                    s = Slice(F, mb, through_calls=True).place({"l": st["lhs"]["l"]})
+                    if s.has_field("LeaderState", "match_index") and s.has_call(r"(or_insert|or_insert_with|get_mut|or_default)$") and st["rv"]["k"] == "use":
+                        sites.append((bi, st["rv"]["a"], "slot-store"))
+        ctx.floor("C09-c", len(sites), 1, "match_index write site in update_match_index")
+        for n, (bi, valop, kind) in enumerate(sites):
+            vs = Slice(F, mb).operand(valop)
+            from_arg = any(x[0] == "param" and x[1] == 3 for x in vs.sources)
+            adv, wit, _ = guarded_by(mb, bi, lambda c: cmp_rel(F, c, lambda s: any(x[0] == "param" and x[1] == 3 for x in s.sources) and not s.has_field("LeaderState", "match_index"),
+                                                                  lambda s: s.has_field("LeaderState", "match_index")) == ">", conds)
+            ctx.check("C09-c", "%s#write[%d]" % (fkey(um), n), adv and from_arg, "match_index written (%s) only when new > current" % kind,
+                      "match_index is overwritten without `new > current` (a stale, out-of-order ACK could move it backwards)", loc(mb, bi), wit and bpath(mb, wit))
     un = ctx.anchor(F.method, "LeaderState", "update_next_index")
     if un:
         paths = table_of(ctx, "C09-c", un, "update_next_index")
